@@ -168,6 +168,7 @@ func (e *Engine) harnessAPI(name string, args []Value, fn *ssa.Function) (Value,
 		e.frozen = e.epoch
 		e.preWrites = 0
 		e.preWriteLog = nil
+		e.preWriteIDs = nil
 		return nil, true
 	case "vUnfreeze":
 		e.frozen = 0
